@@ -33,6 +33,10 @@ def generate(seed, tier, index):
     elif c < 0.75:
         sc = workloads.c07_random(r, tier)
         sc['config']['hooks'] = list(HOOKS)
+        if r.random() < 0.2:
+            # two-digit iteration counts (sorting by iter must be numeric)
+            sc['config']['step']['maxiter'] = 12
+            sc['max_events'] = sc['max_events'] * 4
     else:
         sc = workloads.c09_injected(r, hooks=HOOKS)
     if abs(sc['config']['run']['t0']) > 10 or abs(sc['config']['run']['Tend']) > 10 or sc.get('axis_kind') == 'adaptive' or sc['faults'].get('dtnew'):
